@@ -21,7 +21,7 @@ SPEC = {
     # an observed Paused and the Resume (c20_paused_no_cycle).
     "disagreement_is_violation": True,
     "rule": "case kinds (by case number mod 10): 0 = API case (SharedGlobals::from_runtime with unknown names, a random "
-            "tick_with_shared sequence over 1-4 runners with fault injection; case 10 is the panic scenario); 3,7 = stress "
+            "tick_with_shared sequence over 1-4 runners with fault injection; case 10 is the panic scenario = regression witness of b10bc40); 3,7 = stress "
             "case (2-4 free-running resource threads, random controller: clock advances, pause rounds confirmed by reading "
             "Paused, resume, fault inputs, stop midway, stop-while-paused; lock order and per-cycle values recorded by the "
             "I/O driver inside the locked closure); otherwise scripted case = generated configuration (1-4 resources, own or "
@@ -48,8 +48,9 @@ SPEC = {
     "assumptions": [
         "OS scheduler fairness: every thread that can act eventually does (the theorems bound the NUMBER of own actions "
         "to termination, not wall time)",
-        "execute_cycle returns (no endless loop in user code, no blocking I/O driver) and does not panic; a panic "
-        "poisons the SharedGlobals mutex (see known finding C20-panic-poisons-shared-globals)",
+        "execute_cycle returns (no endless loop in user code, no blocking I/O driver); panics are outside the model "
+        "(the thread of a panicking resource dies with state Running; that the OTHER resources survive is checked by "
+        "the panic scenario, case 10, only)",
         "values are integers without wrap-around (the generated counters stay far below 2^31)",
         "no restart signal, no simulation controller, wall-clock watchdog disabled (the defaults), one start gate "
         "shared by the gated resources",
@@ -68,8 +69,9 @@ MANIFEST = {
                   "which each locked closure is atomic, in lock order (c20_serialisable, forward simulation); the cycle "
                   "runs on exactly the current shared map and nobody else changes it until its write-back "
                   "(c20_cycle_sees_snapshot, c20_lock_protects); invariants of whole cycles hold in every reachable state "
-                  "(c20_shared_invariant); for the counter programs sum of increments = shared counter and pa = pb "
-                  "(c20_counter_sum, c20_pair_equal_partial); once Paused is readable no execute_cycle happens along any "
+                  "(c20_shared_invariant); for the counter programs, with faults injected at any point, sum of increments "
+                  "of the cycles that returned Ok = shared counter and pa = pb unconditionally (c20_counter_sum, "
+                  "c20_pair_equal); once Paused is readable no execute_cycle happens along any "
                   "continuation without Resume (c20_paused_no_cycle); with stop set and the clock interrupted the thread "
                   "ends after at most stopFuel + (commands sent meanwhile) own actions and is blocked only by a live "
                   "mutex owner, which releases within 4 actions (c20_stop_terminates, c20_stop_never_stuck, "
@@ -85,44 +87,47 @@ MANIFEST = {
                   "(termination is a bound on own steps, not on time; the harness reports a thread that does not end within "
                   "20 s as hang). The statement's 'stop ... leaves the state Stopped and saves once' is proved per exit path: "
                   "after a fault the state stays Faulted and NOTHING is saved, a thread stopped at the closed gate saves "
-                  "nothing (both are what the code does). Deviations found: a cycle that faults between two shared writes is "
-                  "written back, so others see the half-updated pair (c20_counterexample_faulting_cycle_publishes_partial_"
-                  "update; pair theorem holds under the guard 'no fault between the writes'); a panic inside a cycle poisons "
-                  "the SharedGlobals mutex and kills every other resource thread (outside the model, reproduced by the "
-                  "harness). Not modelled: restart signal, simulation hooks, wall-clock watchdog, ReloadBytecode and the "
+                  "nothing (both are what the code does). Two defects found by this check are fixed in /repo and the model "
+                  "follows the fixed code: a faulted cycle is no longer written back (0e93b8c; pair theorem now "
+                  "unconditional), a panic inside a cycle no longer poisons the SharedGlobals mutex (b10bc40; outside the "
+                  "model, regression witness = case 10 of every run, a reproduction is a violation). Not modelled: restart signal, simulation hooks, wall-clock watchdog, ReloadBytecode and the "
                   "Update* commands, StdClock/ScaledClock, integer wrap-around.",
 }
 
-# signatures (tags written by the harness) of the listed findings
-SIGNATURES = ("partial-publish", "poison-others-killed")
+# tags written by the harness that mean a fixed finding is back (regression witnesses)
+REGRESSIONS = {
+    "partial-publish": "SharedGlobals holds pa != pb at the end of a case: a cycle that faulted between the two writes "
+                       "was written back (finding C20-faulted-cycle-publishes-partial-writes, fixed by 0e93b8c, is back)",
+    "poison-others-killed": "a panic inside one resource's cycle ended the other resource thread (poisoned SharedGlobals "
+                            "mutex; finding C20-panic-poisons-shared-globals, fixed by b10bc40, is back)",
+    "poison-get-panics": "after a panic inside one resource's cycle SharedGlobals::get panics in the caller",
+    "poison-other-stuck": "after a panic inside one resource's cycle the other resource neither completed a cycle nor ended",
+    "poison-other-wrong-state": "after a panic inside one resource's cycle the other resource published a wrong state, "
+                                "a wrong shared counter, or did not end Stopped on stop",
+}
 
 
 def extra(ctx):
     cases = ctx["cases"]
     tags = collections.Counter(t for c in cases for t in c.tags)
-    listed = {f.get("match"): f for f in vlib.known_findings("C20")}
+    listed = {f.get("match"): f for f in vlib.known_findings("C20") if f.get("match")}
     known, oracle_failures, failures = [], [], []
-    for sig in SIGNATURES:
+    for sig, what in REGRESSIONS.items():
         if not tags[sig]:
             continue
-        if sig in listed:
+        if sig in listed:  # re-opened by the coordinator
             f = listed[sig]
             known.append(f"{f['id']}: {f['what']} (reproduced in {tags[sig]} case(s) of this run)")
-        elif sig == "poison-others-killed":
-            n = next(c.n for c in cases if sig in c.tags)
-            oracle_failures.append({
-                "what": "a panic inside one resource's cycle ended the other resource thread (poisoned SharedGlobals "
-                        "mutex); its published state stayed Running",
-                "case": n, "seed": ctx["seed"], "tier": ctx["tier"],
-            })
-    for bad in ("poison-other-stuck", "poison-others-killed-get-ok"):
-        if tags[bad]:
-            n = next(c.n for c in cases if bad in c.tags)
-            oracle_failures.append({"what": f"panic scenario ended with {bad}", "case": n,
-                                    "seed": ctx["seed"], "tier": ctx["tier"]})
+            continue
+        n = next(c.n for c in cases if sig in c.tags)
+        oracle_failures.append({"what": what, "case": n, "seed": ctx["seed"], "tier": ctx["tier"],
+                                "cases_with_this_signature": tags[sig]})
+    ran_poison = any(c.n == "10" for c in cases)
+    if ran_poison and not any(t.startswith("poison-") for t in tags):
+        failures.append("the panic scenario (case 10) produced no verdict")
     if len(cases) >= 50:
-        for need in ("contention", "paused-go", "fault", "stress", "api"):
-            if not tags[need]:
+        for need in ("contention", "paused-go", "fault", "stress", "api", "poison-others-survive"):
+            if not tags[need] and not (need == "poison-others-survive" and any(t.startswith("poison-") for t in tags)):
                 failures.append(f"the generator produced no '{need}' case in {len(cases)} cases")
     coverage = {"case_tags": dict(sorted(tags.items()))}
     return {"coverage": coverage, "known": known, "oracle_failures": oracle_failures, "failures": failures}
